@@ -154,6 +154,9 @@ class NestedSampler(BaseNestedSampler):
         Keyword arguments passed to the flow proposal class
     """
 
+    _awaiting_replacement = False
+    """Indicates the worst point has been removed but not yet replaced."""
+
     def __init__(
         self,
         model,
@@ -656,23 +659,37 @@ class NestedSampler(BaseNestedSampler):
         """
         Replace a sample for single thread
         """
-        worst = self.live_points[0].copy()
-        self.logLmin = worst["logL"]
-        self.state.increment(worst["logL"])
-        self.nested_samples.append(worst)
+        if self._awaiting_replacement is not True:
+            # Removing the worst point updates several attributes that must
+            # stay consistent if the sampler is checkpointed
+            with self._critical_section():
+                worst = self.live_points[0].copy()
+                self.logLmin = worst["logL"]
+                self.state.increment(worst["logL"])
+                self.nested_samples.append(worst)
 
-        self.condition = (
-            np.logaddexp(
-                self.state.logZ,
-                self.logLmax - self.iteration / float(self.nlive),
-            )
-            - self.state.logZ
-        )
+                self.condition = (
+                    np.logaddexp(
+                        self.state.logZ,
+                        self.logLmax - self.iteration / float(self.nlive),
+                    )
+                    - self.state.logZ
+                )
 
-        # Replace the points we just consumed with the next acceptable ones
-        # Make sure we are mixing the chains
-        self.iteration += 1
-        self.block_iteration += 1
+                # Replace the points we just consumed with the next
+                # acceptable ones
+                # Make sure we are mixing the chains
+                self.iteration += 1
+                self.block_iteration += 1
+                self._awaiting_replacement = True
+        else:
+            # The sampler was checkpointed after the worst point was removed
+            # but before it was replaced, so only the replacement is needed
+            logger.debug("Worst point already removed, drawing replacement")
+            worst = self.nested_samples[-1]
+            # The block may have been reset when the sampler was resumed
+            if not self.block_iteration:
+                self.block_iteration += 1
         count = 0
 
         while True:
@@ -682,9 +699,11 @@ class NestedSampler(BaseNestedSampler):
             if proposed["logL"] > self.logLmin:
                 # Assuming point was proposed
                 # replace worst point with new one
-                proposed["it"] = self.iteration
-                index = self.insert_live_point(proposed)
-                self.insertion_indices.append(index)
+                with self._critical_section():
+                    proposed["it"] = self.iteration
+                    index = self.insert_live_point(proposed)
+                    self.insertion_indices.append(index)
+                    self._awaiting_replacement = False
                 self.accepted += 1
                 self.block_acceptance += 1 / count
                 self.acceptance_history.append(1 / count)
@@ -1238,16 +1257,18 @@ class NestedSampler(BaseNestedSampler):
         Finalise things after sampling
         """
         logger.info("Finalising")
-        for i, p in enumerate(self.live_points):
-            self.state.increment(p["logL"], nlive=self.nlive - i)
-            self.nested_samples.append(p)
-        self.live_points = None
+        # Must not be checkpointed part-way through, see consume_sample
+        with self._critical_section():
+            for i, p in enumerate(self.live_points):
+                self.state.increment(p["logL"], nlive=self.nlive - i)
+                self.nested_samples.append(p)
+            self.live_points = None
 
-        # Refine evidence estimate
-        self.update_state(force=True)
-        self.state.finalise()
-        # output the chain and evidence
-        self.finalised = True
+            # Refine evidence estimate
+            self.update_state(force=True)
+            self.state.finalise()
+            # output the chain and evidence
+            self.finalised = True
 
     def nested_sampling_loop(self):
         """Main nested sampling loop.
@@ -1284,7 +1305,10 @@ class NestedSampler(BaseNestedSampler):
 
         logger.info("Starting nested sampling loop")
 
-        while self.condition > self.tolerance:
+        while (
+            self.condition > self.tolerance
+            or self._awaiting_replacement is True
+        ):
 
             self.check_state()
 
